@@ -510,6 +510,9 @@ def run(ck):
     # ---- part 2: spectra (tables come from the real objects)
     sp_evals, sp_mism = run_spectra(ck, T, d, oki, okm, viol, distinct, samples)
     evals += sp_evals
+    mk_evals, mk_mism = run_masked(ck, d, okm, viol, distinct, samples)
+    evals += mk_evals
+    sp_mism = {**sp_mism, **mk_mism}
     cov["evaluations"] = evals
     cov["distinct_nontrivial"] = len(distinct)
     cov["rule"] = ("one evaluation = one call of the real function (get_cross_section / get_cross_section_verner / get_recombination_rate / get_recombination_rate_verner / "
@@ -534,6 +537,142 @@ def run(ck):
     finish_breaks(ck, set(nviol))
     if not ck.violations:
         ck.resolve_breaks_without_input()
+
+
+MASKED_HARNESS = os.path.join(vf.VERIF, "harness/c18/masked_harness.cpp")
+
+
+def masked_expected(nb=50, per_bin=40):
+    """the tables MaskedPhotonSourceSpectrum must build for the staircase spectrum of the harness (call k falls into bin k mod (nb-1)) and
+    the linear mask: frequency bins and masked bin values in the constructor's own binary64 arithmetic, the cumulative table exactly"""
+    from fractions import Fraction as Fr
+    minf = 3.289e15
+    maxf = 4. * minf
+    bs = (maxf - minf) / (nb - 1.)
+    freq = [minf + i * bs for i in range(nb)]
+    w = [(float(per_bin) if i < nb - 1 else 0.0) * (1. - (freq[i] - minf) / (maxf - minf)) for i in range(nb)]
+    tot = sum(Fr(x) for x in w[:-1])
+    cdf = [float(sum((Fr(x) for x in w[:i]), Fr(0)) / tot) for i in range(nb)]
+    return freq, w, cdf, float(tot) * 100. / (per_bin * (nb - 1))
+
+
+def run_masked(ck, d, okm, viol, distinct, samples):
+    """MaskedPhotonSourceSpectrum (real class from the repo's library): tables and samples, (M) a staircase spectrum whose histogram is known
+    exactly and (N) the real Planck spectrum, both under the linear mask"""
+    impl = os.path.join(d, "impl_masked")
+    ok, log = vf.cxx_build(MASKED_HARNESS, impl, libs=True, openmp=False)
+    if not ok:
+        ck.breaks.append("masked-spectrum harness does not compile/link against the repository:\n" + log[-1500:])
+        ck.c18_brk_kinds.add("sampler_M")
+        return 0, {}
+    rc, tout = vf.run_lines([impl], "TAB M\nTAB N\n", timeout=600)
+    sp = Spectra()
+    tlines = {"M": [], "N": []}
+    for l in tout:
+        if l.startswith("T ") and l != "T end":
+            sp.feed(l)
+            tlines[l.split()[1]].append(l)
+    if rc != 0 or any(k not in sp.t for k in ("Mfreq", "Mcdf", "Mflux", "Nfreq", "Ncdf")):
+        ck.breaks.append("masked-spectrum harness exited with %d / printed no tables" % rc)
+        ck.c18_brk_kinds.add("sampler_M")
+        return 0, {}
+    rng = ck.rng
+    efreq, ew, ecdf, eflux = masked_expected()
+    # --- the tables of the real object (staircase instance) against what the constructor has to build
+    why = None
+    if [hx(x) for x in sp.t["Mfreq"]] != [hx(x) for x in efreq]:
+        why = "frequency bins differ from min + i * (max - min)/(n - 1)"
+    else:
+        c = sp.t["Mcdf"]
+        dev = max(abs(a - b) for a, b in zip(c, ecdf))
+        ck.coverage["masked_table_max_deviation_from_exact_cdf"] = dev
+        if c[0] != 0.0:
+            why = ("the cumulative distribution starts at %r at the lowest frequency %r Hz instead of 0: random numbers below that value are extrapolated below the lowest frequency "
+                   "(the table entry of bin i contains bin i itself, i.e. the whole distribution is shifted by one bin)" % (c[0], efreq[0]))
+        elif dev > 1e-12:
+            i = max(range(len(c)), key=lambda j: abs(c[j] - ecdf[j]))
+            why = "cumulative distribution at %r Hz is %r, the masked histogram gives %r" % (efreq[i], c[i], ecdf[i])
+        elif abs(sp.t["Mflux"][0] - eflux) > 1e-12 * eflux:
+            why = "total flux %r differs from (masked fraction) x (unmasked flux) = %r" % (sp.t["Mflux"][0], eflux)
+        else:
+            spec = sp.t["Mspectrum"]
+            for i in range(len(spec)):
+                exp = ew[i] * 100. / (40 * 49)
+                if abs(spec[i] - exp) > 1e-9 * max(exp, 1e-3):
+                    why = "get_spectrum() reports %r for the bin starting at %r Hz, the masked histogram has %r there" % (spec[i], efreq[i], exp)
+                    break
+    if why:
+        viol("sampler_M", "C18 fails on the real MaskedPhotonSourceSpectrum (49 bins with 40 samples each, linear mask): " + why,
+             {"spectrum": "Masked", "what": "tables", "ops": ["S M %s %s" % (hx(0.0), hx(1e-3))], "T": 0.0, "random_number": 1e-3}, {"kind": "sampler", "spectrum": "Masked"})
+    # --- samples
+    n = 200 if ck.quick else 2500
+    ops, metas = [], []
+    for kd in "MN":
+        c = sp.t[kd + "cdf"]
+        first = [v for v in c if v > 0][:1] or [0.01]
+        xs = sampler_xs(rng, c + ecdf if kd == "M" else c, n) + [first[0] * f for f in (0.01, 0.3, 0.5, 0.9, 0.999)] + [ecdf[1] * f for f in (0.02, 0.5, 0.97)]
+        for x in sorted(xs):
+            ops.append("S %s %s %s" % (kd, hx(0.0), hx(x)))
+            metas.append((kd, x))
+    rc, out_i = vf.run_lines([impl], "TAB M\nTAB N\n" + "\n".join(ops) + "\n", timeout=600)
+    out_i = [l for l in out_i if l.startswith("S")]
+    out_m = None
+    mism = {}
+    if okm:
+        pre = tlines["M"] + ["CHK M", "MCDF M %d %s" % (len(ew), " ".join(hx(x) for x in ew))] + tlines["N"] + ["CHK N"]
+        rc2, om = vf.run_lines([os.path.join(d, "model")], "\n".join(pre + ops) + "\n", timeout=600)
+        chk = [l for l in om if l.startswith("CHK")]
+        mc = [l for l in om if l.startswith("T M cdf")]
+        out_m = [l for l in om if l.startswith("S")]
+        bad = [l for l in chk if not l.endswith("true")]
+        if bad or len(chk) != 2:
+            ck.breaks.append("conditions of theorem C18_sample_masked_in_range do not hold of the real masked tables (extracted checkers: frequencies increasing, distribution non-decreasing and 0 at the lowest frequency): %s" % (bad or chk))
+            ck.c18_brk_kinds.add("sampler_M")
+        impl_line = [l for l in tlines["M"] if l.startswith("T M cdf")]
+        if not mc or not impl_line or mc[0].split() != impl_line[0].split():
+            mism["masked_cdf"] = 1
+            ck.breaks.append("correspondence C18 masked_cdf (model of the constructor's cumulative/normalise loops) <-> real table: differ in %d of %d entries"
+                             % (sum(1 for a, b in zip((mc or [""])[0].split(), (impl_line or [""])[0].split()) if a != b), len(ew)))
+            ck.c18_brk_kinds.add("sampler_M")
+    prev = {}
+    hist = {}
+    for idx, (kd, x) in enumerate(metas):
+        li = out_i[idx] if idx < len(out_i) else "missing"
+        lm = out_m[idx] if out_m is not None and idx < len(out_m) else None
+        try:
+            f = unhx(li.split()[1])
+        except Exception:
+            ck.breaks.append("masked sampler output unreadable: %r" % li)
+            continue
+        name = "Masked(staircase)" if kd == "M" else "Masked(Planck 40000 K)"
+        hist[name] = hist.get(name, 0) + 1
+        distinct.add(("S", name, li))
+        fr = sp.t[kd + "freq"]
+        why = None
+        if not math.isfinite(f) or f < fr[0] * (1 - 4e-16) or f > fr[-1] * (1 + 4e-16):
+            why = "sampled frequency %.9e Hz lies outside the spectrum's range [%.9e, %.9e] Hz (13.6 eV = 3.288e15 Hz)" % (f, fr[0], fr[-1])
+        else:
+            c = ecdf if kd == "M" else sp.t[kd + "cdf"]
+            i = pyloc(x, c)
+            exp = fr[i] + (fr[i + 1] - fr[i]) * (x - c[i]) / (c[i + 1] - c[i])
+            if abs(f - exp) > 1e-9 * abs(exp):
+                why = "sampled frequency %.12e differs from the inverse cumulative distribution of the masked histogram %.12e" % (f, exp)
+            p = prev.get(kd)
+            if why is None and p is not None and p[0] <= x and f < p[1] * (1 - 4e-16):
+                why = "sampled frequency is not monotone in the random number: x=%r -> %r, x=%r -> %r" % (p[0], p[1], x, f)
+            prev[kd] = (x, f)
+        if why:
+            viol("sampler_M", "C18 fails on the real %s sampler: random number %r -> %s" % (name, x, why),
+                 {"spectrum": "Masked", "kind": kd, "T": 0.0, "random_number": x, "returned_frequency": f, "ops": [ops[idx]]}, {"kind": "sampler", "spectrum": "Masked"})
+        if lm is not None and li != lm:
+            mism["S" + kd] = mism.get("S" + kd, 0) + 1
+            if mism["S" + kd] <= 3 and not why:
+                ck.breaks.append("correspondence C18 sampler model <-> real %s: x=%r impl=%s model=%s" % (name, x, li, lm))
+                ck.c18_brk_kinds.add("sampler_M")
+        if len(samples) < 12 and idx % 97 == 5:
+            samples.append({"op": ops[idx], "impl": li, "model": lm})
+    ck.coverage.setdefault("sampler_evaluations", {}).update(hist)
+    return len(metas), mism
 
 
 def run_spectra(ck, T, d, oki, okm, viol, distinct, samples):
@@ -682,6 +821,12 @@ def replay(ck, rp):
         return 2
     r = rp["replay"]
     impl = os.path.join(d, "impl")
+    if r.get("spectrum") == "Masked":
+        ck.c18_brk_kinds = set()
+        got = []
+        n = run_masked(ck, d, False, lambda kind, what, replay, key: got.append(what), set(), [])
+        print("REPLAY:", got[0] if got else "property holds on this input")
+        return 1 if got else 0
     if "ops" in r:           # sampler
         kd = r["ops"][-1].split()[1]
         pre = "TAB %s\n" % kd if kd != "P" else r["ops"][0] + "\nTAB P\n"
